@@ -171,7 +171,7 @@ def make_answer(req, rng):
 def run_scenario(router, table, reqs, rng):
     """table: list of [app, cmd]; reqs: list of [[app, cmd], outcome]. Returns observed dict."""
     from bromelia.base import DiameterAnswer, DiameterRequest
-    router.clear_routes()
+    router = Router()            # a fresh application object per scenario: routes are only ever set through route()
     ran = []
     state = {}
 
@@ -186,7 +186,10 @@ def run_scenario(router, table, reqs, rng):
                 return None
             if out == "wrongtype":
                 return rng.choice(["not an answer", 5012, make_request(pair[0], pair[1], 0, rng), [state]])
-            raise rng.choice([ValueError, KeyError, RuntimeError, ZeroDivisionError])("handler failed")
+            # standard exceptions in the shapes handlers produce them: with a message, without arguments, several arguments
+            exc = rng.choice([ValueError("handler failed"), KeyError("missing"), RuntimeError(), AssertionError(), NotImplementedError(),
+                              ZeroDivisionError("division by zero"), Exception("a", 1), IndexError(), TypeError(None), OSError(5, "io")])
+            raise exc
         return handler
     for pair in table:
         router.register(app_bytes(pair[0]), cmd_bytes(pair[1]), handler_for(tuple(pair)))
